@@ -16,9 +16,10 @@ type engineError struct{ msg string }
 
 // Nondet is one symbolic input created on the current path.
 type Nondet struct {
-	Name  string `json:"name"`
-	Label string `json:"label"`
-	W     int    `json:"w"`
+	Name     string `json:"name"`
+	Label    string `json:"label"`
+	W        int    `json:"w"`
+	Internal bool   `json:"internal,omitempty"` // created by an engine stub (clock), not consumed natively
 }
 
 type Violation struct {
